@@ -225,6 +225,26 @@ def _fields(c, case):
                 nm = f"{ft} {_sname(sym)} {'x'.join(map(str, shp))}"
                 c.prove_eq(f"{nm}: upper half == input", upper_half(out, sym, (1, 2, 3)), f, (), lambda m, r=replay: r(m, upper=True), key=f"{kb}:upper-half")
                 c.prove_eq(f"{nm}: parity and mirror index map", out, want, (), replay, key=f"{kb}:parity-map", chunk=4)
+                # under the wall condition (an odd component sampled on an electric plane vanishes there) the unfolded field is
+                # exactly (anti)symmetric about the plane, the plane row included: U[n - j] == p U[n + j], j = 0..n-1
+                for a in range(3):
+                    for cc in range(3):
+                        if sym[a] == 0 or not onp(cc, a):
+                            continue
+                        p, n = par(cc, a), shp[a]
+                        idx0 = [slice(None)] * 3
+                        idx0[a] = 0
+                        hyp = [sc.eq(v, 0) for v in f[cc][tuple(idx0)].reshape(-1)] if p == -1 else []
+                        lhs = np.take(out[cc], [n - j for j in range(n)], axis=a)
+                        rhs = _mul(p, np.take(out[cc], [n + j for j in range(n)], axis=a))
+
+                        def rp_sym(m, f=f, fn=fn, cc=cc, a=a, n=n, p=p):
+                            fc = model_array(m, f)
+                            U = np.asarray(fn(jnp.asarray(fc, dtype=jnp.float64)))[cc]
+                            res = float(np.max(np.abs(np.take(U, [n - j for j in range(n)], axis=a) - p * np.take(U, [n + j for j in range(n)], axis=a))))
+                            return res > 1e-9 * (1 + _maxabs(fc)), dict(field=fc, unfolded_component=U, component=cc, axis=a, residual=res)
+
+                        c.prove_eq(f"{nm}: {ft}{'xyz'[cc]} zero on the {'xyz'[a]}-plane => mirror (anti)symmetric about it", lhs, rhs, hyp, rp_sym, key=f"{kb}:plane-symmetry")
                 if not twin:
                     # vacuity: an odd component exists and the lower half is not a copy of the input
                     lowidx = (0,) + tuple(0 for _ in shp)
